@@ -36,8 +36,45 @@ EXTENDS Leb, FiniteSets, TLC
 LOCAL SX == INSTANCE SequencesExt
 
 Z8 == Zero(8)
-Nat8(n) == FromNat(n, 8)
-Int8(n) == FromInt(n, 8)
+(* Non-recursive constructors: SANY gives RECURSIVE operators no constant   *)
+(* level, so TLC would re-evaluate every "constant" built with BV!FromNat   *)
+(* at each use.  0 <= n < 2^31 for Nat8; -2^31 < n for Int8.                *)
+Nat8(n) == <<n % 256, (n \div 256) % 256, (n \div 65536) % 256, (n \div 16777216) % 256, 0, 0, 0, 0>>
+Int8(n) == IF n >= 0 THEN Nat8(n)
+           ELSE LET k == -(n + 1) IN
+                <<255 - (k % 256), 255 - ((k \div 256) % 256), 255 - ((k \div 65536) % 256),
+                  255 - ((k \div 16777216) % 256), 255, 255, 255, 255>>
+
+(* 64-bit arithmetic on 16-bit limbs, non-recursive (fast in TLC); checked  *)
+(* against BV!Add / BV!Neg / BV!Mul in MCCfiExec's lemma mode.              *)
+Limb(a, j) == a[2 * j - 1] + 256 * a[2 * j]
+FromLimbs(l1, l2, l3, l4) == <<l1 % 256, l1 \div 256, l2 % 256, l2 \div 256, l3 % 256, l3 \div 256, l4 % 256, l4 \div 256>>
+(* a + b + cin: [v |-> low 64 bits, c |-> carry out] *)
+AddL(a, b, cin) == LET s1 == Limb(a, 1) + Limb(b, 1) + cin
+                       s2 == Limb(a, 2) + Limb(b, 2) + s1 \div 65536
+                       s3 == Limb(a, 3) + Limb(b, 3) + s2 \div 65536
+                       s4 == Limb(a, 4) + Limb(b, 4) + s3 \div 65536
+                   IN [v |-> FromLimbs(s1 % 65536, s2 % 65536, s3 % 65536, s4 % 65536), c |-> s4 \div 65536]
+Add8(a, b) == AddL(a, b, 0).v
+Neg8(a) == LET s1 == 65535 - Limb(a, 1) + 1
+               s2 == 65535 - Limb(a, 2) + s1 \div 65536
+               s3 == 65535 - Limb(a, 3) + s2 \div 65536
+               s4 == 65535 - Limb(a, 4) + s3 \div 65536
+           IN FromLimbs(s1 % 65536, s2 % 65536, s3 % 65536, s4 % 65536)
+(* a * k for 0 <= k <= 255 *)
+MulK(a, k) == LET p1 == Limb(a, 1) * k
+                  p2 == Limb(a, 2) * k + p1 \div 65536
+                  p3 == Limb(a, 3) * k + p2 \div 65536
+                  p4 == Limb(a, 4) * k + p3 \div 65536
+              IN FromLimbs(p1 % 65536, p2 % 65536, p3 % 65536, p4 % 65536)
+SmallPos(b) == \A i \in 2..8 : b[i] = 0
+SmallNeg(b) == b[1] >= 1 /\ \A i \in 2..8 : b[i] = 255
+(* low 64 bits of a * b (= wrapping u64 / i64 product) *)
+Mul8(a, b) == IF SmallPos(b) THEN MulK(a, b[1])
+              ELSE IF SmallPos(a) THEN MulK(b, a[1])
+              ELSE IF SmallNeg(b) THEN Neg8(MulK(a, 256 - b[1]))
+              ELSE IF SmallNeg(a) THEN Neg8(MulK(b, 256 - a[1]))
+              ELSE Mul(a, b)
 
 RaSignState == 34                       \* crate::AArch64::RA_SIGN_STATE
 Unbounded == 1000000                    \* capacity of a Vec-backed storage
@@ -160,7 +197,7 @@ DecodedProg(ts, off, asz, le) ==
 (* cfg = [asz, caf (BV8, unsigned), daf (BV8, signed), ver \in {1,3,4},    *)
 (*        le, ra, start (BV8), range (BV8)]                                *)
 (*------------------------------------------------------------------------*)
-U32(n, le) == Lay(FromNat(n, 4), le)
+U32(n, le) == Lay(Trunc(Nat8(n), 4), le)
 
 CieBody(cfg) ==
     Lay(<<255, 255, 255, 255>>, cfg.le) \o <<cfg.ver, 0>>
@@ -183,7 +220,7 @@ FdeOff(cfg, cie)    == FdeOffWith(CieBody(cfg), EncProg(cie, cfg.asz, cfg.le))
 FdeInsOff(cfg, cie) == FdeOff(cfg, cie) + 4 + 4 + 2 * cfg.asz
 EncSection(cfg, cie, fde) == SectionWith(CieBody(cfg), cfg, EncProg(cie, cfg.asz, cfg.le), EncProg(fde, cfg.asz, cfg.le))
 
-FdeEnd(cfg) == ZExt(Trunc(Add(cfg.start, cfg.range), cfg.asz), 8)    \* wrapping_add_sized
+FdeEnd(cfg) == ZExt(Trunc(Add8(cfg.start, cfg.range), cfg.asz), 8)    \* wrapping_add_sized
 
 (*------------------------------------------------------------------------*)
 (* 2. Decoder: CallFrameInstruction::parse over bytes b from index p       *)
@@ -376,10 +413,10 @@ SaveInitialRules(m) ==
 
 (* u64::add_sized: checked add, then the address-size mask *)
 AddSized(a, d, asz) ==
-    LET s == Add(a \o <<0>>, d \o <<0>>) IN
-    IF s[9] # 0 \/ \E i \in (asz + 1)..8 : s[i] # 0 THEN [ok |-> FALSE] ELSE [ok |-> TRUE, v |-> Trunc(s, 8)]
+    LET s == AddL(a, d, 0) IN
+    IF s.c # 0 \/ \E i \in (asz + 1)..8 : s.v[i] # 0 THEN [ok |-> FALSE] ELSE [ok |-> TRUE, v |-> s.v]
 
-Factored(f, daf) == Mul(f, daf)          \* Wrapping<i64> product = low 64 bits
+Factored(f, daf) == Mul8(f, daf)          \* Wrapping<i64> product = low 64 bits
 
 (* UnwindTable::evaluate.  Result st: "run" = Ok(false), "row" = Ok(true), "err". *)
 Eval(m, i) ==
@@ -389,7 +426,7 @@ Eval(m, i) ==
             IF ULt(i.a, row.start) THEN Fail(m, "InvalidCfiSetLoc")
             ELSE [SetTop(m, [row EXCEPT !.end = i.a]) EXCEPT !.ns = i.a, !.st = "row"]
       [] i.op = "AdvanceLoc" ->
-            LET s == AddSized(row.start, Mul(i.d, m.caf), m.asz) IN
+            LET s == AddSized(row.start, Mul8(i.d, m.caf), m.asz) IN
             IF ~s.ok THEN Fail(m, "AddressOverflow")
             ELSE [SetTop(m, [row EXCEPT !.end = s.v]) EXCEPT !.ns = s.v, !.st = "row"]
       [] i.op = "DefCfa"    -> SetTop(m, [row EXCEPT !.cfa = CfaReg(i.r, i.o)])
@@ -513,23 +550,23 @@ RStep(s, i) ==
     ELSE CASE i.op = "Bad" -> RFail(s, i.err)
       [] i.op = "SetLoc" -> IF ULt(i.a, s.loc) THEN RFail(s, "InvalidCfiSetLoc") ELSE RNewRow(s, i.a)
       [] i.op = "AdvanceLoc" ->
-            LET d == Mul(i.d, s.caf)
+            LET d == Mul8(i.d, s.caf)
                 t == AddSized(s.loc, d, s.asz) IN
             IF ~t.ok THEN RFail(s, "AddressOverflow") ELSE RNewRow(s, t.v)
       [] i.op = "DefCfa"   -> [s EXCEPT !.cfa = CfaReg(i.r, i.o)]
-      [] i.op = "DefCfaSf" -> [s EXCEPT !.cfa = CfaReg(i.r, Mul(i.f, s.daf))]
+      [] i.op = "DefCfaSf" -> [s EXCEPT !.cfa = CfaReg(i.r, Mul8(i.f, s.daf))]
       [] i.op = "DefCfaRegister" ->
             IF s.cfa.k = "reg" THEN [s EXCEPT !.cfa = CfaReg(i.r, s.cfa.off)] ELSE RFail(s, "CfiInstructionInInvalidContext")
       [] i.op = "DefCfaOffset" ->
             IF s.cfa.k = "reg" THEN [s EXCEPT !.cfa = CfaReg(s.cfa.r, i.o)] ELSE RFail(s, "CfiInstructionInInvalidContext")
       [] i.op = "DefCfaOffsetSf" ->
-            IF s.cfa.k = "reg" THEN [s EXCEPT !.cfa = CfaReg(s.cfa.r, Mul(i.f, s.daf))]
+            IF s.cfa.k = "reg" THEN [s EXCEPT !.cfa = CfaReg(s.cfa.r, Mul8(i.f, s.daf))]
             ELSE RFail(s, "CfiInstructionInInvalidContext")
       [] i.op = "DefCfaExpression" -> [s EXCEPT !.cfa = CfaExpr(i.eo, i.el)]
       [] i.op = "Undefined" -> [s EXCEPT !.rules = FSet(@, i.r, RUndefined)]
       [] i.op = "SameValue" -> [s EXCEPT !.rules = FSet(@, i.r, RSameValue)]
-      [] i.op \in {"Offset", "OffsetExtendedSf"} -> [s EXCEPT !.rules = FSet(@, i.r, ROffset(Mul(i.f, s.daf)))]
-      [] i.op \in {"ValOffset", "ValOffsetSf"}   -> [s EXCEPT !.rules = FSet(@, i.r, RValOffset(Mul(i.f, s.daf)))]
+      [] i.op \in {"Offset", "OffsetExtendedSf"} -> [s EXCEPT !.rules = FSet(@, i.r, ROffset(Mul8(i.f, s.daf)))]
+      [] i.op \in {"ValOffset", "ValOffsetSf"}   -> [s EXCEPT !.rules = FSet(@, i.r, RValOffset(Mul8(i.f, s.daf)))]
       [] i.op = "Register"      -> [s EXCEPT !.rules = FSet(@, i.r, RRegister(i.s))]
       [] i.op = "Expression"    -> [s EXCEPT !.rules = FSet(@, i.r, RExpr(i.eo, i.el))]
       [] i.op = "ValExpression" -> [s EXCEPT !.rules = FSet(@, i.r, RValExpr(i.eo, i.el))]
